@@ -326,6 +326,9 @@ class Seam:
 
     def match_fault(self, kind, r1, r2, tgt):
         for rule in self.faults:
+            if kind in rule["at"] and rule.get("stuck") is not None and rule["stuck"] == (r2 or r1):
+                # "sticky" rule: the path it hit first keeps failing (an immutable / busy file stays so)
+                return make_exc(rule["exc"], r2 or r1 or "")
             if rule.get("done"):
                 continue
             if kind not in rule["at"]:
@@ -348,6 +351,8 @@ class Seam:
             else:
                 rule["seen"] = 0
             self.fired[rule.get("name", rule.get("exc", "action"))] += 1
+            if rule.get("sticky"):
+                rule["stuck"] = r2 or r1
             if rule.get("action"):
                 rule["action"]()  # an external actor does something at this instant; no exception
                 return None
